@@ -746,6 +746,18 @@ def ext_axioms(terms):
                 lo <= x, x < hi, d.at(d.valid, x, x),
                 z3.ForAll([j], z3.Implies(z3.And(lo <= j, j < hi, d.at(d.valid, x, j)), d.at(d.body, x, j) <= d.at(d.body, x, x))),
                 z3.ForAll([j], z3.Implies(z3.And(lo <= j, j < x, d.at(d.valid, x, j)), d.at(d.body, x, j) < d.at(d.body, x, x))))))
+    # argmax congruence: two first-maximum searches over the same range whose values and validity agree at a
+    # skolem index return the same index
+    ams = [x for x in ground_subterms(terms).values() if z3.is_app(x) and x.decl().get_id() in ArgmaxDef.registry]
+    for i_, x in enumerate(ams[:8]):
+        for y in ams[i_ + 1:8]:
+            if x.decl().eq(y.decl()) or not (x.arg(0).eq(y.arg(0)) and x.arg(1).eq(y.arg(1))):
+                continue
+            dx, dy = ArgmaxDef.registry[x.decl().get_id()], ArgmaxDef.registry[y.decl().get_id()]
+            sk = Fresh.int("sk")
+            ax.append(z3.Implies(z3.Implies(z3.And(x.arg(0) <= sk, sk < x.arg(1)),
+                                            z3.And(dx.at(dx.body, x, sk) == dy.at(dy.body, y, sk), dx.at(dx.valid, x, sk) == dy.at(dy.valid, y, sk))),
+                                 x == y))
     # ground instances of the minimality axiom of one First application at another application of the
     # same definition (what is needed to show that two searches return the same index)
     for apps in firsts.values():
